@@ -16,7 +16,8 @@ MANIFEST = {
             "named struct environment, Lisk32. Theorems (all inputs): varint round trip and shortest-form canonicity, "
             "read-after-write round trip of every primitive, generic decode(encode v) = canon v and strict variant for every "
             "well-formed schema, encode deterministic, strict decoding of a flat schema (Transaction) accepts only the "
-            "canonical bytes. Tie: translator re-derives each struct's three field sequences from the generated Go code "
+            "canonical bytes; Lisk32 bytes->text->bytes and text->bytes->text are lossless and createChecksum always verifies. "
+            "Tie: translator re-derives each struct's three field sequences from the generated Go code "
             "(enc = dec = strict, wf) and the correspondence runs every primitive and every generated struct on exhaustive short "
             "byte strings, boundary varints, model-encoded values and mutations, comparing value, error class and reader position.",
     "note": "Trusted: Coq kernel + vm_compute, model fidelity as sampled, Go harness, Python glue, translator (cross-checked by the "
@@ -179,7 +180,7 @@ def nontrivial(ck, r):
 
 def harness_args(ck):
     if ck.tier == "quick":
-        return ["-exh", "2", "-rand", "600", "-structs", "6", "-mut", "6", "-lisk32", "60"]
+        return ["-exh", "2", "-rand", "400", "-structs", "4", "-mut", "4", "-lisk32", "40"]
     return ["-exh", "3", "-rand", "6000", "-structs", "40", "-mut", "20", "-lisk32", "3000"]
 
 
@@ -211,7 +212,13 @@ def run(ck):
         "for each of the 13 Read* methods, strict and lenient; 32 boundary uint64 values in canonical and padded form plus over-long / "
         "out-of-range / unterminated varints as value, as length prefix and as key; nested-reader states (index, end) around packed and "
         "repeated fields incl. end beyond len(data) and negative; mutated valid encodings. Writer primitives: boundary values per method. "
-        "Distinct = by (method, strictness, outcome class, error class, input prefix/length).")
+        "Generated structs (101 reachable of 103): the empty message, N schema-driven generated values each (N=4 quick, 40 thorough), "
+        "M random mutations of each (4 / 20) and hostile varints / length prefixes at top-level positions of the first value; compared: "
+        "Decode and DecodeStrict status, error class, re-encoded bytes; oracle: Encode.Decode fixed point accepted by DecodeStrict, "
+        "flat canonical schemas accept only canonical bytes. Lisk32: boundary + random 20-byte addresses both directions, every "
+        "single-character corruption of samples, prefix/length/charset errors. IDs: NewTransaction / NewBlockHeader / NewBlock on "
+        "generated, mutated and trailing-byte inputs (ID = SHA-256 of accepted/re-encoded bytes, stable under decode+encode). "
+        "Distinct = by (method or struct, generator, strictness, outcome class, error class, input prefix/length).")
     ck.cov["exhaustive"] = True
     ck.extra["exhaustive_domain"] = "Reader primitives on byte strings up to length L over the 10-symbol boundary alphabet only"
     ck.extra["traces_validated_against_impl"] = len(recs)
